@@ -63,6 +63,7 @@ def classes : List Cls := [
   c "IPSecESP" .be 8 [],
   c "DNS" .be 12 [],
   c "BootP" .be 236 [],
+  c "ICMPv6" .be 8 [(16, 16)],
   c "DHCPv6" .be 4 [],
   c "Dot11" .le 10 [],
   c "Dot11Data" .le 24 [],
@@ -225,6 +226,23 @@ def rows : List Row := [
   r "BootP" "yiaddr" .be 128 32 .bytes .rw,
   r "BootP" "siaddr" .be 160 32 .bytes .rw,
   r "BootP" "giaddr" .be 192 32 .bytes .rw,
+  -- RFC 4443 §2.1 (type, code, checksum), §4 (echo id/seq); RFC 4861 §4.2 (RA: cur hop limit, M O, router lifetime),
+  --   §4.4 (NA: R S O); RFC 3775 (H), RFC 4191 (Prf); RFC 2710 (MLD maximum response delay)
+  r "ICMPv6" "type" .be 0 8 .num .rw,
+  r "ICMPv6" "code" .be 8 8 .num .rw,
+  r "ICMPv6" "checksum" .be 16 16 .num .rw,
+  r "ICMPv6" "identifier" .be 32 16 .num .rw,
+  r "ICMPv6" "sequence" .be 48 16 .num .rw,
+  r "ICMPv6" "router" .be 32 1 .num .rw,
+  r "ICMPv6" "solicited" .be 33 1 .num .rw,
+  r "ICMPv6" "override" .be 34 1 .num .rw,
+  r "ICMPv6" "hop_limit" .be 32 8 .num .rw,
+  r "ICMPv6" "managed" .be 40 1 .num .rw,
+  r "ICMPv6" "other" .be 41 1 .num .rw,
+  r "ICMPv6" "home_agent" .be 42 1 .num .rw,
+  r "ICMPv6" "router_pref" .be 43 2 .num .rw,
+  r "ICMPv6" "router_lifetime" .be 48 16 .num .rw,
+  r "ICMPv6" "maximum_response_code" .be 32 16 .num .rw,
   -- RFC 8415 §8 client/server message header (msg-type, transaction-id); §9 relay header starts msg-type, hop-count
   r "DHCPv6" "msg_type" .be 0 8 .num .rw,
   r "DHCPv6" "hop_count" .be 8 8 .num .rw,
